@@ -2,18 +2,18 @@
    bond limit prescribe.  Statements only; proofs live in Proofs/TruncProofs.v.
 
    Model/Trunc.v is the selection logic of symmray.linalg.svd_truncated and
-   calc_sub_max_bonds over exact values (tied to the code by the correspondence
-   run of harness/c13.py).  `thr_cut_impl` is the threshold exactly as the code
-   computes it (including `sall[-0] = sall[0]`), `thr_cut_spec` the repaired
-   rule (cumulative cutoff above the total weight keeps nothing, like modes 1, 2).
-   A cutoff is the rational p/q; `within_total` says the cumulative cutoff does
-   not exceed the total weight.
+   calc_sub_max_bonds over exact values; `trunc` / `thr_cut` is the model of the
+   CURRENT code and is what the correspondence run of harness/c13.py ties to
+   the implementation.  When a cumulative cutoff exceeds the total weight the
+   code sets abs_cutoff = +inf (guard `n_chi_all == 0`); +inf is represented by
+   a numerator above every value (see `C13_inf_standin`).
+   A cutoff is the rational p/q.
 
    All theorems are unbounded: any number of sectors, any values.  Hypotheses:
    each block's values are non-increasing (`sectors_desc`, LAPACK's contract)
    and non-negative (`sectors_nonneg`).  Examples showing they are satisfiable
-   on a non-trivial instance: TruncProofs.ex_shapes, ex_within, ex_bond_tie,
-   ex_no_cutoff.
+   on a non-trivial instance: TruncProofs.ex_shapes, ex_within (incl. a cutoff
+   above the total weight), ex_bond_tie, ex_no_cutoff.
 
    NOT covered by a theorem (checked on the implementation by the oracle of
    harness/c13.py only): equality of the three absorb variants, the
@@ -22,7 +22,7 @@
 From SV Require Import Base.Prelude Model.Trunc Proofs.TruncProofs.
 
 (* every kept value is (strictly) above every discarded one, across all charges;
-   holds for the code as written and for the repaired rule *)
+   stated for any threshold rule `thr`, in particular `thr_cut` *)
 Theorem C13_kept_ge_discarded :
   forall thr m p q mb secs counts,
     0 < q -> 0 < p -> sectors_desc secs ->
@@ -52,40 +52,20 @@ Theorem C13_cutoff_maximal :
   forall m p q sall,
     cumulative m = true -> 0 < q -> asc sall -> nonneg sall -> sall <> [] ->
     let rhs := rhs_of m p sall in
-    let a := thr_cut_spec m p q sall in
+    let a := thr_cut m p q sall in
     (0 < rhs -> q * weight m (filter (fun s => q * s <? a) sall) < rhs) /\
     (forall t, q * weight m (filter (fun s => s <? t) sall) < rhs ->
                forall s, In s sall -> s < t -> q * s < a).
-Proof. exact cutoff_maximal_spec. Qed.
-
-Theorem C13_cutoff_maximal_impl_within_total :
-  forall m p q sall,
-    cumulative m = true -> 0 < q -> asc sall -> nonneg sall -> sall <> [] ->
-    within_total m p q sall ->
-    let rhs := rhs_of m p sall in
-    let a := thr_cut_impl m p q sall in
-    (0 < rhs -> q * weight m (filter (fun s => q * s <? a) sall) < rhs) /\
-    (forall t, q * weight m (filter (fun s => s <? t) sall) < rhs ->
-               forall s, In s sall -> s < t -> q * s < a).
-Proof. exact cutoff_maximal_impl. Qed.
+Proof. exact cutoff_maximal. Qed.
 
 (* a larger cutoff never keeps more, in any sector *)
 Theorem C13_cutoff_monotone :
   forall m p p' q mb secs counts counts',
     0 < q -> 0 < p -> p <= p' -> sectors_nonneg secs -> all_values secs <> [] ->
-    sub_max_bonds thr_cut_spec m p q mb secs = Some counts ->
-    sub_max_bonds thr_cut_spec m p' q mb secs = Some counts' ->
+    sub_max_bonds thr_cut m p q mb secs = Some counts ->
+    sub_max_bonds thr_cut m p' q mb secs = Some counts' ->
     Forall2 le counts' counts.
-Proof. exact cutoff_monotone_spec. Qed.
-
-Theorem C13_cutoff_monotone_impl_within_total :
-  forall m p p' q mb secs counts counts',
-    0 < q -> 0 < p -> p <= p' -> sectors_nonneg secs -> all_values secs <> [] ->
-    within_total m p' q (sort_asc (all_values secs)) ->
-    sub_max_bonds thr_cut_impl m p q mb secs = Some counts ->
-    sub_max_bonds thr_cut_impl m p' q mb secs = Some counts' ->
-    Forall2 le counts' counts.
-Proof. exact cutoff_monotone_impl. Qed.
+Proof. exact cutoff_monotone. Qed.
 
 (* bond limit, ties characterised exactly: with v the max_bond-th largest value,
    kept <= #{s >= v}, and #{s > v} < max_bond <= #{s >= v}; without a tie at the
@@ -142,58 +122,40 @@ Theorem C13_largest_within_each_charge :
     forall k d, In k (nth j (kept_of secs counts) []) -> In d (nth j (disc_of secs counts) []) -> d <= k.
 Proof. exact largest_within_each_charge. Qed.
 
-(* ---- F7: what the code does when a cumulative cutoff exceeds the total weight *)
-Theorem C13_impl_above_total_keeps_all :
+(* ---- a cumulative cutoff above the total weight keeps nothing (guard n_chi_all == 0;
+   before fix d8706ac the code kept everything here, see notes/C13.md) *)
+Theorem C13_above_total_keeps_none :
   forall m p q sall,
     cumulative m = true -> 0 < q -> asc sall -> nonneg sall -> sall <> [] ->
     q * weight m sall < rhs_of m p sall ->
-    forall s, In s sall -> thr_cut_impl m p q sall <= q * s.
-Proof. exact impl_above_total_keeps_all. Qed.
+    forall s, In s sall -> q * s < thr_cut m p q sall.
+Proof. exact above_total_keeps_none. Qed.
 
-Theorem C13_spec_above_total_keeps_none :
-  forall m p q sall,
-    cumulative m = true -> 0 < q -> asc sall -> nonneg sall -> sall <> [] ->
-    q * weight m sall < rhs_of m p sall ->
-    forall s, In s sall -> q * s < thr_cut_spec m p q sall.
-Proof. exact spec_above_total_keeps_none. Qed.
+Theorem C13_above_total_nothing_kept :
+  forall m p q mb secs,
+    cumulative m = true -> 0 < q -> 0 < p -> sectors_nonneg secs -> all_values secs <> [] ->
+    q * weight m (sort_asc (all_values secs)) < rhs_of m p (sort_asc (all_values secs)) ->
+    sub_max_bonds thr_cut m p q mb secs = Some (map (fun _ => 0%nat) secs) /\
+    new_chargemap secs (map (fun _ => 0%nat) secs) = [].
+Proof. exact above_total_nothing_kept. Qed.
 
-(* the property's monotonicity clause, unrestricted, for the code as written *)
-Definition C13_monotone_full : Prop := monotone_unrestricted.
-
-Theorem C13_monotone_full_refuted : ~ C13_monotone_full.
-Proof. exact monotone_unrestricted_refuted. Qed.
-
-Theorem C13_impl_above_total_refuted :
-  exists m p p' q mb secs counts counts',
-    0 < q /\ 0 < p /\ p <= p' /\ sectors_desc secs /\ sectors_nonneg secs /\ all_values secs <> [] /\
-    sub_max_bonds thr_cut_impl m p q mb secs = Some counts /\
-    sub_max_bonds thr_cut_impl m p' q mb secs = Some counts' /\
-    (total_kept counts < total_kept counts')%nat /\
-    sub_max_bonds thr_cut_spec m p' q mb secs = Some [0; 0]%nat /\
-    sub_max_bonds thr_cut_impl MAbs p' q mb secs = Some [0; 0]%nat.
-Proof. exact impl_above_total_refuted. Qed.
-
-Theorem C13_impl_not_maximal_refuted :
-  exists m p q sall,
-    cumulative m = true /\ 0 < q /\ asc sall /\ nonneg sall /\ sall <> [] /\
-    ~ (forall t, q * weight m (filter (fun s => s <? t) sall) < rhs_of m p sall ->
-                 forall s, In s sall -> s < t -> q * s < thr_cut_impl m p q sall).
-Proof. exact impl_not_maximal_refuted. Qed.
+(* +inf stand-in: ANY numerator above every value is unchanged by the bond fold
+   and passed by no value, as float("inf") is *)
+Theorem C13_inf_standin :
+  forall q mb sall a, (forall s, In s sall -> q * s < a) ->
+    fold_bond q mb sall a = a /\ (forall ss, (forall s, In s ss -> In s sall) -> keep_count q a ss = 0%nat).
+Proof. exact inf_standin. Qed.
 
 Print Assumptions C13_kept_ge_discarded.
 Print Assumptions C13_kept_is_threshold_set.
 Print Assumptions C13_final_is_intersection.
 Print Assumptions C13_cutoff_maximal.
-Print Assumptions C13_cutoff_maximal_impl_within_total.
 Print Assumptions C13_cutoff_monotone.
-Print Assumptions C13_cutoff_monotone_impl_within_total.
 Print Assumptions C13_bond_limit.
 Print Assumptions C13_no_cutoff_total.
 Print Assumptions C13_distribute_contract.
 Print Assumptions C13_no_cutoff_bond_dimension.
 Print Assumptions C13_largest_within_each_charge.
-Print Assumptions C13_impl_above_total_keeps_all.
-Print Assumptions C13_spec_above_total_keeps_none.
-Print Assumptions C13_monotone_full_refuted.
-Print Assumptions C13_impl_above_total_refuted.
-Print Assumptions C13_impl_not_maximal_refuted.
+Print Assumptions C13_above_total_keeps_none.
+Print Assumptions C13_above_total_nothing_kept.
+Print Assumptions C13_inf_standin.
